@@ -178,7 +178,8 @@ func getParentFromKey(sp interface{}, key string) (string, string, interface{}, 
 	// unescape chars in key, e.g. "{}" from path params
 	pth, _ := url.PathUnescape(key[1:])
 
-	parent, entry := path.Dir(pth), path.Base(pth)
+	// the last token addresses an entry of the parent container: it must be decoded, like jsonpointer does
+	parent, entry := path.Dir(pth), jsonpointer.Unescape(path.Base(pth))
 	debugLog("getting schema holder at: %s, with entry: %s", parent, entry)
 
 	pptr, err := jsonpointer.New(parent)
